@@ -10,6 +10,7 @@ import JumanjiModel.Env.FlatPack.SpecLemmas
 import JumanjiModel.Env.FlatPack.InvLemmas
 import JumanjiModel.Env.FlatPack.CoverLemmas
 import JumanjiModel.Env.FlatPack.BoundsLemmas
+import JumanjiModel.Env.FlatPack.Episode
 open Jm FlatPack
 
 namespace Props.C04
@@ -112,6 +113,78 @@ theorem flatpack_objective_step (cfg : Cfg) (s : State) (b k r c : Nat) (hi : In
     objective cfg (step id cfg s (act b k r c)).1 =
       objective cfg s + ((step id cfg s (act b k r c)).2.reward).sum :=
   FlatPack.objective_step cfg s b k r c hi hin
+
+/-! whole episodes (`returnOf`, `endState`, `InSpecAll`, `LegalEpisode` in Env/FlatPack/Episode.lean): a list of
+actions `(block, rotation, row, column)` is played until the first LAST timestep (after `num_blocks` steps); exact
+arithmetic (`rnd = id`: the float32 rounding of each quotient is outside the theorem).  `blocksOK` and `freshOK` are
+the generator certificates the C10 sweep evaluates on the implementation's reset states.
+reward.py offers `CellDenseReward` and `BlockDenseReward` only; the "sparse: 1 if the grid is completely filled"
+reward of the class docstring does not exist in the code (reported as a documentation finding). -/
+
+/-- ANY sequence of actions of the action space from ANY state satisfying the invariant (legal actions are executed,
+the others ignored; finished or not): the rewards add up to the gain of the objective, recomputed from the grid
+(cell-dense: covered cells / all cells) or the placed flags (block-dense: placed / all blocks) of the last state -/
+theorem flatpack_episode_return_from (cfg : Cfg) (s : State) (as : List Act4) (hi : Inv cfg s)
+    (hin : InSpecAll cfg as) :
+    returnOf id cfg s as = objective cfg (endState id cfg s as) - objective cfg s :=
+  FlatPack.return_any cfg s as hi hin
+
+/-- cell-dense reward, from a generated instance: return = covered fraction of the final grid -/
+theorem flatpack_cell_return (cfg : Cfg) (s : State) (as : List Act4) (hcd : cfg.cellDense = true)
+    (hb : blocksOK cfg s = true) (h : freshOK cfg s = true) (hin : InSpecAll cfg as) :
+    returnOf id cfg s as = coveredFraction cfg (endState id cfg s as) :=
+  FlatPack.cell_return cfg s as hcd hb h hin
+
+/-- block-dense reward, from a generated instance: return = fraction of blocks placed in the final state -/
+theorem flatpack_block_return (cfg : Cfg) (s : State) (as : List Act4) (hcd : cfg.cellDense = false)
+    (hb : blocksOK cfg s = true) (h : freshOK cfg s = true) (hin : InSpecAll cfg as) :
+    returnOf id cfg s as = placedFraction (endState id cfg s as) :=
+  FlatPack.block_return cfg s as hcd hb h hin
+
+/-- the two reward functions on the SAME action sequence (the trajectory does not depend on the reward function):
+when the episode ends with every block placed, both return 1 = the covered fraction of the (then full) grid -/
+theorem flatpack_complete_returns (cfg : Cfg) (s : State) (as : List Act4) (hb : blocksOK cfg s = true)
+    (h : freshOK cfg s = true) (hin : InSpecAll cfg as) (hall : (endState id cfg s as).placed.all id = true)
+    (hpos : 0 < cfg.numRows * cfg.numCols) (hnb : 0 < cfg.numBlocks) :
+    returnOf id { cfg with cellDense := true } s as = 1 ∧ returnOf id { cfg with cellDense := false } s as = 1 ∧
+    endState id { cfg with cellDense := true } s as = endState id { cfg with cellDense := false } s as ∧
+    IsSolution cfg (endState id cfg s as) := by
+  have h12 := FlatPack.complete_both_one cfg s as hb h hin hall hpos hnb
+  refine ⟨h12.1, h12.2, ?_, ?_⟩
+  · exact (FlatPack.endState_reward_irrel id cfg true s as).trans (FlatPack.endState_reward_irrel id cfg false s as).symm
+  · have hi := FlatPack.endState_inv id cfg s as (FlatPack.fresh_inv' cfg s hb h) hin
+    have hsum := (FlatPack.freshOK_fields cfg s h).2.2.2.2
+    rw [← FlatPack.endState_blocks id cfg s as] at hsum
+    exact FlatPack.complete_is_solution cfg _ hi.1 hall hsum
+
+/-- every complete episode of LEGAL actions from a generated instance places every block, hence cell-dense return =
+block-dense return = 1 on all legal trajectories run to termination -/
+theorem flatpack_legal_episode_returns (cfg : Cfg) (s : State) (as : List Act4) (hb : blocksOK cfg s = true)
+    (h : freshOK cfg s = true) (hep : LegalEpisode id cfg s as)
+    (hpos : 0 < cfg.numRows * cfg.numCols) (hnb : 0 < cfg.numBlocks) :
+    returnOf id { cfg with cellDense := true } s as = 1 ∧ returnOf id { cfg with cellDense := false } s as = 1 :=
+  FlatPack.complete_both_one cfg s as hb h (FlatPack.legalEpisode_inSpec id cfg s as hep)
+    (FlatPack.legalEpisode_complete id cfg s as hb h hep) hpos hnb
+
+/-- a 5 × 3 instance of two interlocking blocks (7 and 8 cells) as the generator produces them -/
+def flatpackTwoBlocks : State :=
+  let t : State := { grid := Jx.Grid.mk 5 3 0, numBlocks := 2,
+                     blocks := [[[1,1,1],[1,1,1],[1,0,0]], [[0,2,2],[2,2,2],[2,2,2]]],
+                     actionMask := [], placed := [false, false], stepCount := 0 }
+  { t with actionMask := legalMask ⟨5, 3, 2, true⟩ t }
+
+/-- the trajectory class on which the two reward functions differ: episodes containing an ignored action.  Block 0
+is put down, then chosen again (ignored; the episode ends after `num_blocks` = 2 steps): the cell-dense return is the
+covered fraction 7/15, the block-dense return is the placed fraction 1/2 -/
+theorem flatpack_cell_ne_block_witness :
+    blocksOK ⟨5, 3, 2, true⟩ flatpackTwoBlocks = true ∧ freshOK ⟨5, 3, 2, true⟩ flatpackTwoBlocks = true ∧
+    InSpecAll ⟨5, 3, 2, true⟩ [(0, 0, 0, 0), (0, 0, 0, 0)] ∧
+    returnOf id ⟨5, 3, 2, true⟩ flatpackTwoBlocks [(0, 0, 0, 0), (0, 0, 0, 0)] = 7/15 ∧
+    returnOf id ⟨5, 3, 2, false⟩ flatpackTwoBlocks [(0, 0, 0, 0), (0, 0, 0, 0)] = 1/2 := by decide +kernel
+
+/-- … and a complete legal episode on the same instance -/
+example : LegalEpisode id ⟨5, 3, 2, true⟩ flatpackTwoBlocks [(0, 0, 0, 0), (1, 0, 2, 0)] := by decide +kernel
+example : returnOf id ⟨5, 3, 2, true⟩ flatpackTwoBlocks [(0, 0, 0, 0), (1, 0, 2, 0)] = 1 := by decide +kernel
 end Props.C08
 
 namespace Props.C09
@@ -126,6 +199,39 @@ theorem flatpack_legal_step_cells (rnd : Rat → Rat) (cfg : Cfg) (s : State) (b
     (step rnd cfg s (act b k r c)).1.placed = s.placed.set b true ∧
     (step rnd cfg s (act b k r c)).1.blocks = s.blocks :=
   FlatPack.legal_step_cells rnd cfg s b k r c hf hm hl p hi hj
+
+/-- L1 = L2: on every state satisfying the episode invariant (`Inv`: feasible, cached mask = legal moves; kept by
+every step, `flatpack_step_inv`) in which no more blocks are placed than steps were taken (kept by every step,
+`flatpack_step_count_inv`), and for every action of the action space, the transliterated `step` returns exactly what
+the documented rules (`stepL2`, Env/FlatPack/Model.lean) prescribe: the chosen block, rotated, is written at the
+chosen position iff it is not yet placed, fits inside the grid and overlaps no occupied cell — otherwise grid, blocks
+and placed flags stay as they are; the step is counted; reward = cells of the block / cells of the grid
+(resp. 1 / num_blocks) for a placement, 0 otherwise; LAST iff all blocks are placed or `num_blocks` steps were taken.
+Successor state (cached mask included), reward, step type, discount and observation; any float rounding `rnd`. -/
+theorem flatpack_step_eq_spec (rnd : Rat → Rat) (cfg : Cfg) (s : State) (b k r c : Nat) (hi : Inv cfg s)
+    (hc : Jx.countTrue s.placed ≤ s.stepCount) (hin : inSpec cfg b k r c = true) :
+    step rnd cfg s (act b k r c) = stepL2 rnd cfg s b k r c :=
+  FlatPack.step_eq_spec rnd cfg s b k r c hi hc hin
+
+/-- the second hypothesis of `flatpack_step_eq_spec` is an invariant of every step and holds in a fresh instance -/
+theorem flatpack_step_count_inv (rnd : Rat → Rat) (cfg : Cfg) (s : State) (b k r c : Nat) (hi : Inv cfg s)
+    (hc : Jx.countTrue s.placed ≤ s.stepCount) (hin : inSpec cfg b k r c = true) :
+    Jx.countTrue (step rnd cfg s (act b k r c)).1.placed ≤ (step rnd cfg s (act b k r c)).1.stepCount :=
+  FlatPack.step_count_inv rnd cfg s b k r c hi hc hin
+
+/-- the documented end of an episode ("all blocks placed" or "`num_blocks` steps taken") is the code's
+`step_count >= num_blocks` -/
+theorem flatpack_last_iff_doc (rnd : Rat → Rat) (cfg : Cfg) (s : State) (b k r c : Nat) (hi : Inv cfg s)
+    (hc : Jx.countTrue s.placed ≤ s.stepCount) (hin : inSpec cfg b k r c = true) :
+    (step rnd cfg s (act b k r c)).2.stepType = .last ↔
+      ((step rnd cfg s (act b k r c)).1.placed.all id = true ∨
+        (step rnd cfg s (act b k r c)).1.numBlocks ≤ (step rnd cfg s (act b k r c)).1.stepCount) :=
+  FlatPack.last_iff_doc rnd cfg s b k r c hi hc hin
+
+/-- the hypotheses hold in the generated 5 × 3 instance of `Props.C08` -/
+example : Inv ⟨5, 3, 2, true⟩ Props.C08.flatpackTwoBlocks :=
+  FlatPack.fresh_inv' _ _ Props.C08.flatpack_cell_ne_block_witness.1 Props.C08.flatpack_cell_ne_block_witness.2.1
+example : Jx.countTrue Props.C08.flatpackTwoBlocks.placed ≤ Props.C08.flatpackTwoBlocks.stepCount := by decide
 end Props.C09
 
 namespace Props.C10
